@@ -306,7 +306,7 @@ reg(P("C15", "plugins", "c15",
                    "handler by its code pointer)",
                    "'affects only later calls' is judged per plugin manager: the list a call traverses in a manager "
                    "is the manager's list at the moment the call fetched it (see DESIGN.md C15)"],
-      sig_reset=("side", "conc"), sig_event=("ev", "mgr", "h"),
+      sig_reset=("side", "conc", "twin"), sig_event=("ev", "mgr", "h"),
       mutate=_c15_mutate, design_ref="DESIGN.md §6 C15",
       technique="TLC refinement check PluginManagerImpl => PluginChain + TLC trace validation of recorded traversals"))
 
